@@ -18,6 +18,9 @@ Requests of the TFLite writer / reader models (syntax: Model/TfliteText.lean).
 `wspec <desc> <model>`    Spec.conforms: does the walked file say what the graph says? `ok` | `bad <n> <kind>|<detail> ~ …`
 `wreadspec <desc>`        Spec.readOk on the description of what the real reader built
 `wmeta <version> <model> <model>`   Spec.metadataKept source file / written file
+`wloop <desc>`            model only: t1 = write d, t2 = write (read t1); are t1 and t2 the same file up to buffer and operator-code numbering (tensor
+                          data / code entries compared through the index), metadata, description and trailing absent operands? `same <n>` |
+                          `differ …` | `err:write:<kind>` | `err:read:<kind>` | `err:rewrite:<kind>`
 -/
 namespace VelaVerif.Handlers.Tflite
 open VelaVerif VelaVerif.Tflite
@@ -37,6 +40,27 @@ def normRead (d : Desc) : Desc :=
 def showProblems (l : List Spec.Problem) : String :=
   if l.isEmpty then "ok" else
   s!"bad {l.length} " ++ " ~ ".intercalate ((l.take 8).map fun p => p.kind ++ "|" ++ ((p.detail.replace " " "_").take 120).toString)
+
+/-- a file up to buffer numbering, operator-code numbering and metadata: every tensor carries its data instead of a buffer
+    index, every operator its operator-code entry instead of an index (the Ethos-U operator is written as `CustomNpuOp` and read
+    back as `Custom "ethos-u"`, which sorts elsewhere), trailing `-1` operands are dropped (the reader appends `None` for a missing
+    bias), metadata, buffers and description are left out -/
+def loopView (m : ModelT) : Sx :=
+  let dataOf (b : Nat) : Sx := match m.buffers[b]? with
+    | some x => encOpt encData (Reader.parseBuffer x)
+    | none => .atom "?"
+  let stripTrailing (l : List Int) : List Int := (l.reverse.dropWhile (· == -1)).reverse
+  let codeOf (i : Nat) : Sx := match m.opcodes[i]? with
+    | some c => encOpCode c
+    | none => .atom "?"
+  .list [.atom "model", encStr m.fileId, encNat m.version,
+    .list (m.subgraphs.map fun s =>
+      .list [.atom "sg",
+        .list (s.tensors.map fun t => .list [.atom "t", encOpt (encList encInt) t.shape, encNat t.type, dataOf t.buffer, encOpt encBytes t.name,
+                                             encOpt encQuantT t.quant, encBool t.isVariable]),
+        encOpt (encList encInt) s.inputs, encOpt (encList encInt) s.outputs,
+        .list (s.operators.map fun o => .list [codeOf o.opcodeIndex, encOperatorT { o with inputs := o.inputs.map stripTrailing, opcodeIndex := 0 }]),
+        encOpt encBytes s.name])]
 
 def handle : List String → Option String
   | "wwrite" :: toks =>
@@ -118,6 +142,25 @@ def handle : List String → Option String
       match decBytes vx, decModelT ax, decModelT bx with
       | some v, some a, some b => some (showProblems (Spec.metadataKept v a b))
       | _, _, _ => some "err:bad-model"
+    | _ => some "err:bad-request"
+  | "wloop" :: toks =>
+    match Sx.parseAll toks with
+    | some [dx] =>
+      match decDesc dx with
+      | some d =>
+        match Writer.write d with
+        | .error e => some ("err:write:" ++ e)
+        | .ok t1 =>
+          match Reader.read d.version t1 with
+          | .error e => some ("err:read:" ++ e)
+          | .ok d2 =>
+            match Writer.write d2 with
+            | .error e => some ("err:rewrite:" ++ e)
+            | .ok t2 =>
+              match Sx.diff "" (loopView t1) (loopView t2) with
+              | none => some s!"same {(t1.subgraphs.map (·.operators.length)).sum}"
+              | some r => some (showDiff r "first" "second")
+      | none => some "err:bad-desc"
     | _ => some "err:bad-request"
   | "wsame" :: toks =>
     match Sx.parseAll toks with
